@@ -180,3 +180,67 @@ func VerifStreamTrace(pieces [][]byte, fail bool, ops []byte) (out []string) {
 	}
 	return out
 }
+
+// VerifKeyMatch runs the struct decoder's key matcher of struct type t on text, which starts at the
+// opening quote of a key. In buffer mode (chunk == 0) text is NUL-terminated by the hook; otherwise
+// it is delivered chunk bytes per read. The result is "<bitmap|map> off=<field offset>", "... none",
+// "... err" or "... panic".
+func VerifKeyMatch(t reflect.Type, text []byte, chunk int) (res string) {
+	dec, err := CompileToGetDecoder(runtime.Type2RType(reflect.PtrTo(t)))
+	if err != nil {
+		return "err compile"
+	}
+	pd, ok := dec.(*ptrDecoder)
+	if !ok {
+		return "err decoder"
+	}
+	sd, ok := pd.contentDecoder().(*structDecoder)
+	if !ok {
+		return "err decoder"
+	}
+	path := "map"
+	if sd.keyBitmapUint8 != nil || sd.keyBitmapUint16 != nil {
+		path = "bitmap"
+	}
+	defer func() {
+		if r := recover(); r != nil {
+			res = path + " panic"
+		}
+	}()
+	var field *structFieldSet
+	if chunk == 0 {
+		buf := append(append([]byte{}, text...), 0)
+		_, field, err = sd.keyDecoder(sd, buf, 0)
+	} else {
+		s := NewStream(&verifChunkReader{data: text, size: chunk})
+		field, _, err = sd.keyStreamDecoder(sd, s)
+	}
+	if err != nil {
+		return path + " err"
+	}
+	if field == nil {
+		return path + " none"
+	}
+	return fmt.Sprintf("%s off=%d", path, field.offset)
+}
+
+type verifChunkReader struct {
+	data []byte
+	size int
+}
+
+func (r *verifChunkReader) Read(p []byte) (int, error) {
+	if len(r.data) == 0 {
+		return 0, io.EOF
+	}
+	n := r.size
+	if n > len(r.data) {
+		n = len(r.data)
+	}
+	if n > len(p) {
+		n = len(p)
+	}
+	copy(p, r.data[:n])
+	r.data = r.data[n:]
+	return n, nil
+}
